@@ -240,6 +240,12 @@ class Table(Vector):
 		# Build column map
 		self._column_map = self._build_column_map()
 
+	def fingerprint(self) -> int:
+		# A table's columns can be written through live views (t.a[0] = 1), which
+		# the table is not told about: never serve a memoised value
+		self._fp = None
+		return super().fingerprint()
+
 	def __len__(self):
 		if len(self._underlying) == 0:
 			return 0
